@@ -79,6 +79,15 @@ def main():
         bad["ev"][i], bad["ev"][i + 1] = bad["ev"][i + 1], bad["ev"][i]
         v, _, _ = common.validate_traces("TracePipeline", "TracePipeline.cfg", [r, bad], wd)
         allok &= expect("TracePipeline", v, "ok:refines", "drift:expected:absolute")
+        # TraceReuse, fine regime (double-width products): the reported matrix with one entry off by 2e-5
+        from harness import c20
+        import random as _r
+        j = [x for x in c20.jobs_for("quick", _r.Random(0)) if x[4] == "fine:trix100->rot30"][0]
+        r = c20.job(j)
+        bad = copy.deepcopy(r)
+        bad["A"][0] += 2000
+        v, _, _ = common.validate_traces("TraceReuse", "TraceReuse.cfg", [r, bad], wd)
+        allok &= expect("TraceReuse", v, "ok:sound", "BAD:reported-transform-does-not-map")
     finally:
         common.cleanup(wd)
     print("binding self-test", "passed" if allok else "FAILED")
